@@ -3,18 +3,29 @@
    parse), comparison mode, the value hcl returned and the summaries of its
    diagnostics (positive id = error, negative = warning), in order. *)
 From Coq Require Import QArith String.
-From HclV Require Import Base.Prelude Cty.Values Cty.Convert Cty.Ops Eval.Impl Eval.Funcs.
+From HclV Require Import Base.Prelude Cty.Values Cty.Convert Cty.Ops Eval.Impl Eval.Funcs Eval.Vars.
 Open Scope Z_scope.
 
 (* mode 0: compare value and diagnostics exactly; 1: compare type and diagnostics only
    (numbers outside the exact domain); 2: skip (outside the model's universe) *)
-Record ecase := mkCase { c_ctx : ctx; c_expr : expr; c_mode : Z; c_val : val; c_diags : list Z }.
+Record ecase := mkCase { c_ctx : ctx; c_expr : expr; c_mode : Z; c_val : val; c_diags : list Z;
+                          c_vars : list traversal (* hclsyntax.Variables(expr), in order *) }.
+
+Definition step_eqb (a b : step) : bool :=
+  match a, b with
+  | SAttr x, SAttr y => str_eqb x y
+  | SIndex x, SIndex y => val_eqb x y
+  | _, _ => false
+  end.
+Definition trav_eqb (a b : traversal) : bool :=
+  str_eqb (fst a) (fst b) && list_eqb step_eqb (snd a) (snd b).
 
 Definition diag_ids (ds : list diag) : list Z :=
   map (fun d => if d_err d then d_sum d else - d_sum d) ds.
 
 (* 0 = agree, 1 = disagree, 2 = skipped (unsupported by the model) *)
 Definition eval_case_status (c : ecase) : Z :=
+  if negb (list_eqb trav_eqb (variables (c_expr c)) (c_vars c)) then 1 else
   if c_mode c =? 2 then 2 else
   let '(v, ds) := value (c_ctx c) (c_expr c) in
   if has_unsupported ds then 2
